@@ -281,3 +281,29 @@ def as_comprehension(prog, cls, f, e):
                                         generators=[ast.comprehension(target=lp.target, iter=lp.iter, ifs=[], is_async=0)])
                 return ast.copy_location(comp, lp)
     return None
+
+
+def expand_all(e, flow, keep=()):
+    """structural copy of expression ``e`` (a node of the analysed tree) in which every local name that has one plain definition
+    is replaced by that definition, recursively; names in ``keep`` stay.  Used to compare expressions modulo named intermediate values
+    (`n = len(s); range(n)` reads as `range(len(s))`)."""
+    def go(x, depth):
+        if isinstance(x, list):
+            return [go(y, depth) for y in x]
+        if not isinstance(x, ast.AST):
+            return x
+        if isinstance(x, (ast.expr_context, ast.operator, ast.unaryop, ast.boolop, ast.cmpop)):
+            return x
+        if isinstance(x, ast.Name) and isinstance(x.ctx, ast.Load) and x.id not in keep and depth < 6:
+            ex = flow.expand(x)
+            if ex is not x and not isinstance(ex, ast.Name):
+                return go(ex, depth + 1)
+        new = type(x)()
+        for name in x._fields:
+            if hasattr(x, name):
+                setattr(new, name, go(getattr(x, name), depth))
+        for name in x._attributes:
+            if hasattr(x, name):
+                setattr(new, name, getattr(x, name))
+        return new
+    return go(e, 0)
